@@ -25,6 +25,53 @@ CLAIMED = {
              "SoftMinMax/KS/PNorm bounds are decided by z3 (EXP/LOG with ground monotonicity instances).",
         note="float64 as exact reals; n <= 3 (quick) / 5 (thorough); PNorm bounds only for integer p; lemma instances for "
              "EXP/LOG listed in the evidence."),
+    "C07": dict(
+        text="LinSolve / Inverse / SystemOfEquations / StaticCondensation executed on symbolic matrices (every class, "
+             "dense and sparse stand-ins, all dof partitions up to n=4); right-hand sides are defined from free "
+             "pre-images so that A x = b, x[p] = x_p, b[f] = b_f and the Schur-complement identity are polynomial "
+             "identities decided by z3; with LinSolve's own solver choice the real dense solver classes run on exact "
+             "LU/LDL elimination models.",
+        note="float64 as exact reals; np.allclose in the matrix classification read as exact equality; inner sparse LU and "
+             "the `solver=` override are contract oracles (op(A) x = b); n <= 3 quick / 4 thorough."),
+    "C08": dict(
+        text="AssembleGeneral/Stiffness/Mass/Poisson executed with symbolic scaling, element sizes, material data, element "
+             "matrices and boundary values; the assembled matrix is compared entry-wise with an independent scatter; "
+             "symmetry, rigid-body null space, mass totals, Poisson energy and exact-integration element matrices are "
+             "z3-decided identities; positive semi-definiteness per element on a rational material/size grid.",
+        note="float64 as exact reals; sqrt(3) is an exact algebraic constant; meshes <= 2x2 / 1x1x1 quick, 3x2 / 2x2x1 "
+             "thorough; PSD for rational sizes/material only (symbolic ones time out), assembled by linearity in x."),
+    "C12": dict(
+        text="Strain/Stress/ElementAverage/ElementOperation/NodalOperation/ThermoMechanical executed on a symbolic affine "
+             "displacement field with symbolic sizes and material: every strain/stress row, the energy identity with the "
+             "real AssembleStiffness, the transpose relation and the thermal-load identities are decided by z3.",
+        note="float64 as exact reals; unit out-of-plane thickness for 2D stress; the doubled engineering shear of "
+             "Strain(voigt=True) is a known finding (D7) and matched narrowly."),
+    "C13": dict(
+        text="The real index functions of DomainDefinition run on z3 integers: injectivity/range with unbounded symbolic "
+             "grid sizes, node-number round trip with symbolic sizes <= 15 (24-bit bit-vectors with no-wrap guards), "
+             "connectivity/dof tables for enumerated grids with symbolic indices, shape functions and their derivatives "
+             "with symbolic sizes and evaluation point.",
+        note="div/mod by symbolic divisors only up to the stated size bounds; tables enumerated up to 5x5 / 3x3x3 quick "
+             "(8x8 / 5x5x5 thorough)."),
+    "C15": dict(
+        text="Operation programs (constructor + up to 2/3 operations) over the public DyadCarrier API executed on symbolic "
+             "real/complex vectors; after every step value, shape, complex/real type, operand immutability and aliasing "
+             "are compared with an independent dense reference, each entry-wise equality decided by z3.",
+        note="float64 as exact reals; depth <= 2 quick, seeded subset of depth 3 thorough; shapes up to 3x3; inputs non-zero "
+             "except in dedicated zero-vector programs; in-place operators are exercised with dyadic operands only."),
+    "C18": dict(
+        text="Histories of Signal/SignalSlice operations (assign, add_sensitivity incl. the same object twice and later "
+             "mutation, reset with/without keep_alloc, basic/tuple/integer-array/nested slices) executed on symbolic real "
+             "and complex data in lock-step with an explicit-copy reference model; every state/sensitivity entry and "
+             "every None-ness/aliasing fact is compared after each step (z3 decides the entry-wise equalities).",
+        note="history length <= 4 quick / 6 thorough (seeded subset), ranks <= 3; integer index arrays without repeats."),
+    "C20": dict(
+        text="write_to_vti executed on array stand-ins whose sizes/shapes are bit-vector integers (grid sizes <= 12, "
+             "component counts <= 6) with the file recorded in memory: section, component count, padding, extent, spacing "
+             "and origin are decided by z3 for all sizes in the bound; WriteToVTI naming and ScalarToFile header/row "
+             "structure with a symbolic iteration counter (inductive step).",
+        note="bytes produced by base64/struct/float32 and number formatting are C code and outside the claim; the size-based "
+             "cell/point ambiguity (D12 family) and the csv header tags (D16) are known findings."),
 }
 
 TECH = "symbolic execution of the real Python source on z3 terms (symx) + SMT (z3 5.1), counterexamples replayed"
